@@ -820,8 +820,6 @@ def sql_probes(rng, strs, decl, T):
         out.append(("[]byte(%s)" % gostr(s), ["bytes", Q(s)]))
     names = [trim(T, n) for n, _ in decl]
     v0 = decl[0][1]
-    for n in names[:3]:
-        out.append((gostr(n), "other"))                                   # a string is not a []byte
     out += [("int64(%d)" % max(min(v0, MAXI64), -MAXI64), "other"), ("nil", "other"), ("float64(1)", "other"), ("true", "other"),
             ("time.Time{}", "other"), ("[]byte(nil)", ["bytes", Q("")]), ("[]string{%s}" % gostr(names[0]), "other"),
             ("%s(%d)" % (T, v0), "other")]
@@ -992,6 +990,20 @@ func verifRes(err error, t %(T)s) string {
 		emit("sql.cls:"+strconv.Itoa(j), verifCls(err))
 	}
 ''' % ", ".join(e for e, _ in sqls))
+    if "sql" in flags:
+        # the pair through the driver.Value it produces itself, and Go strings in general (case <id>v)
+        src.append('''	for _, x := range decl {
+		v, _ := driver.Valuer(x).Value()
+		t := target
+		err := sql.Scanner(&t).Scan(v)
+		emit("V/sql.rtv:"+verifDec(x), verifRes(err, t))
+	}
+	for j, in := range strs {
+		t := target
+		err := sql.Scanner(&t).Scan(in)
+		emit("V/sql.sdec:"+strconv.Itoa(j), verifRes(err, t))
+	}
+''')
     if "gorm" in flags:
         src.append('\temit("gorm.dt", z.GormDataType())\n\temit("gorm.dbdt", z.GormDBDataType(nil, nil))\n')
     src.append('''	for j, s := range strs {
@@ -1209,6 +1221,11 @@ def features_of(en):
 C01_FLAGS = ["bit", "json", "text", "sql", "gorm"]
 LISTED_KINDS = ["int", "uint", "int32", "uint32"]        # what ListTypes (-file / -type=*) keeps
 C01_VARIANTS = ["local-harm", "local-ok", "nonident-carry", "nonident-paren", "nonident-ok"]
+# identifiers that collide with names the template introduces, and look-alikes that do not
+CLASH_ALWAYS = ["x", "fmt"]
+CLASH_BY_FLAG = {"json": ["json"], "sql": ["driver", "errors"], "bit": ["bytes"], "gorm": ["gorm", "schema"]}
+CLASH_HARMLESS = ["str", "ok", "buf", "i_", "v_", "s_", "err", "data", "text", "value", "e_", "flag", "strings", "sort", "y"]
+CLASH_TYPES_OK = ["String", "Values", "IsValid", "ShootEnum", "Ok", "Str"]
 C01_HEADER = re.compile(r'^// Code generated by "shoot [^"\n]*"; DO NOT EDIT\.')
 
 
@@ -1224,11 +1241,36 @@ def c01_case(ctx, g, cid, shape, feature, flags, mode):
         kinds = LISTED_KINDS
     if feature and feature.startswith("kind:") and kinds and feature[5:] not in kinds:
         kinds = None
-    ens = [g.variant(shape, kinds=kinds) if shape in C01_VARIANTS else g.enum(shape, feature, kinds=kinds)]
+    clash = None
+    if shape in ("clash", "clash-ok", "clash-decl", "clash-type-ok"):
+        clash, shape0 = shape, "wf"
+        ens = [g.enum("wf", "unprefixed" if shape != "clash-type-ok" else None, kinds=kinds,
+                      T=rng.choice(CLASH_TYPES_OK) if shape == "clash-type-ok" else None)]
+    else:
+        ens = [g.variant(shape, kinds=kinds) if shape in C01_VARIANTS else g.enum(shape, feature, kinds=kinds)]
+    extra_decls = []
+    if clash in ("clash", "clash-ok", "clash-decl"):
+        bad = CLASH_ALWAYS + [n for f in flags for n in CLASH_BY_FLAG.get(f, [])] + (["shoot"] if set(flags) & {"json", "text", "sql"} else [])
+        ok = CLASH_HARMLESS + [n for f2, ns in CLASH_BY_FLAG.items() if f2 not in flags for n in ns] + ([] if set(flags) & {"json", "text", "sql"} else ["shoot"])
+        e0 = ens[0]
+        if clash == "clash-decl":
+            # another package-level declaration (not a constant of the type) carries the name
+            nm_ = rng.choice([n for n in bad if n != "x"])
+            extra_decls.append((nm_, rng.choice(["func %s() {}\n", "var %s = 1\n", "const %s = 2\n", "type %s struct{}\n"]) % nm_))
+        else:
+            nm_ = rng.choice(bad if clash == "clash" else ok)
+            specs = [sp for f in e0["files"] for b in f["blocks"] for sp in b["specs"] if (sp["form"] == "c" or sp.get("ty") == e0["T"])]
+            tnames = [n for sp in specs for n in sp["names"] if n != "_"]
+            _, d0 = evaluate(e0)
+            tnames = [n for n in tnames if n in dict(d0)]
+            if tnames and nm_ not in _all_names(e0):
+                old_ = rng.choice(tnames)
+                for sp in specs:
+                    sp["names"] = [nm_ if n == old_ else n for n in sp["names"]]
     if mode == "list" or (mode in ("file", "star") and rng.random() < 0.4):
         for _ in range(60):
             T2 = rng.choice([t for t in TYPE_NAMES if t != ens[0]["T"] and t.lower() != ens[0]["T"].lower()])
-            e2 = g.enum(rng.choice(["wf", "wf", "wf", shape if shape not in C01_VARIANTS else "wf"]), None, kinds=kinds, T=T2)
+            e2 = g.enum(rng.choice(["wf", "wf", "wf", shape if (shape not in C01_VARIANTS and not clash) else "wf"]), None, kinds=kinds, T=T2)
             if not (set(_all_names(e2)) & set(_all_names(ens[0]))):
                 ens.append(e2)
                 break
@@ -1266,6 +1308,9 @@ def c01_case(ctx, g, cid, shape, feature, flags, mode):
             for f in e["files"]:
                 for b in f["blocks"]:
                     blocks_in_order.append((e, b))
+    for nm_, src_ in extra_decls:
+        first = sorted(files)[0]
+        files[first] += "\n" + src_
     # one evaluation over the whole package (the blocks of the enums are independent of each other)
     blocks_sexp = []
     locals_sexp = []
@@ -1287,10 +1332,11 @@ def c01_case(ctx, g, cid, shape, feature, flags, mode):
     if aux:
         types.append([Q("Aux"), "int"])
     args = ["enum"] + ["-" + f for f in flags] + sel
+    idents = sorted(set([n for e in ens for n in _all_names(e)] + [e["T"] for e in ens] + (["Aux"] if aux else []) + [n for n, _ in extra_decls]))
     sexp = dump(["case", cid, "c01enum", ["flags"] + flags, ["mode", mode], ["types"] + types, ["blocks"] + blocks_sexp]
-                + ([["locals"] + locals_sexp] if locals_sexp else []))
+                + ([["locals"] + locals_sexp] if locals_sexp else []) + [["idents"] + [Q(n) for n in idents]])
     return {"id": cid, "area": "enum", "files": files, "runs": [{"args": args}], "oracle": {}, "sexp": sexp, "key": sexp,
-            "cmd": "shoot " + " ".join(args), "mode": mode, "flags": ["-" + f for f in flags], "shape": shape,
+            "cmd": "shoot " + " ".join(args), "mode": mode, "flags": ["-" + f for f in flags], "shape": clash or shape,
             "feature": feature or "random", "kinds": [e["kind"] for e in ens]}
 
 
@@ -1333,7 +1379,7 @@ def c01_leg(ctx, res, n):
             plan.append(("wf", [None, "carried", "multi", "shift"][r], fl, modes[(k + r) % 4]))
     # 2. every region shape and every underlying kind / iota form, in every mode
     shaped = ([("neg", None), ("big", None), ("dupval", None), ("dupname", None), ("typedexpr", None), ("empty", None)] +
-              [(v, None) for v in C01_VARIANTS] +
+              [(v, None) for v in C01_VARIANTS] + [("clash", None), ("clash-ok", None), ("clash-decl", None), ("clash-type-ok", None)] +
               [("wf", "kind:" + k) for k in KIND_NAMES] +
               [("wf", f) for f in ["iota", "offset", "shift", "explicit", "multi", "lin", "hex", "carried", "placeholder",
                                    "multi-block", "multi-file", "accidental-prefix", "distractor"]])
@@ -1349,7 +1395,7 @@ def c01_leg(ctx, res, n):
     # 3. random
     while len(plan) < n:
         r = rng.random()
-        sh = "wf" if r < 0.8 else rng.choice(["neg", "big", "dupval", "dupname", "typedexpr"] + C01_VARIANTS)
+        sh = "wf" if r < 0.75 else rng.choice(["neg", "big", "dupval", "dupname", "typedexpr"] + C01_VARIANTS + ["clash", "clash", "clash-ok", "clash-ok", "clash-decl", "clash-type-ok"])
         fl = [f for f in C01_FLAGS if rng.random() < (0.15 if f == "bit" else 0.4)]
         if "gorm" in fl and "sql" not in fl and rng.random() < 0.85:
             fl.append("sql")
@@ -1367,6 +1413,10 @@ def c01_leg(ctx, res, n):
             res.hist("enum-kind", k)
         for f in c["flags"]:
             res.hist("flag", "enum" + f)
+    note = ("enum leg: int and uint are taken to be 64 bit wide (amd64/arm64); a 32-bit GOARCH is neither modelled nor exercised; "
+            "gorm.io/gorm is a two-type stub module")
+    if note not in res.assumptions:
+        res.assumptions.append(note)
     core.compare_cases(ctx, res, cases, impl, model,
                        sig=lambda c, region, dk, im, m: region if region.startswith("F_") else region + ":" + ",".join(sorted(dk)),
                        nontrivial=lambda c, m, im: m["region"] != "Out")
